@@ -1342,8 +1342,9 @@ def compare_model(run, ctx, out):
             if m != r0: return diff('pending %s link pairs differ' % name, sorted(m), sorted(r0))
         # the real flag may be set by calls that changed nothing (`coll.add(x)` with x already inside): nothing is pending then, which the
         # comparisons above have established; the direction the invariant needs is `pending => modified`
-        if bool(st['modified']) and not bool(snap['modified']): return diff('cache.modified is not set although the model has pending changes', st['modified'], snap['modified'])
-        if bool(snap['modified']) and not bool(st['modified']): ctx.count('tie:real-modified-flag-set-by-a-call-that-changed-nothing')
+        pending = any(x is not None for x in st['queue']) or bool(st['added']) or bool(st['removed'])
+        if pending and not bool(snap['modified']): return diff('cache.modified is not set although changes are pending', st['modified'], snap['modified'])
+        if bool(snap['modified']) != bool(st['modified']): ctx.count('tie:modified-flag-differs-with-nothing-pending')
         if 'stmts' in snap:
             ms = sorted(json.dumps(x, sort_keys=True) for x in st['writes'])
             rs_ = sorted(json.dumps(x, sort_keys=True) for x in snap['stmts'])
